@@ -11,7 +11,7 @@ from .fm import *
 
 E = 10
 HINT = {'pa': 10 ** 6, 'pb': 5 * 10 ** 5, 'F': 8 * 10 ** 5, 'C': 10 ** 5, 'F2': 10 ** 6, 'C2': 0, 'X_lp1': 3, 'X_usd': 0, 'X_om': 0, 'wa': 10 ** 6, 'T': 10 ** 7,
-        'amount': 10 ** 5, 'rate': 10 ** 5, 'exp_b': 5 * DAY}
+        'amount': 10 ** 5, 'rate': 10 ** 5, 'exp_b': 5 * DAY, 'rate3': 10 ** 3, 'C3': 10 ** 3}
 DENOMS = (LP1, 'uusd', 'uom')
 
 
@@ -49,6 +49,11 @@ def world(I):
     C2 = I.sym('C2', hi=U128)
     I.assume(C2 <= F2)
     put_farm(I, farm('f-2', 'fowner2', LP2, LP1, F2, C2, 1, 4, 12))        # a farm whose reward token is an LP token
+    # a second active farm on the same LP token with the SAME owner as f-1 (one owner, several farms)
+    rate3 = I.sym('rate3', lo=1, hi=U128 // 64)
+    C3 = I.sym('C3', hi=U128)
+    I.assume(C3 <= rate3 * 8)
+    put_farm(I, farm('f-3', 'fowner', LP1, 'uom', simp(rate3 * 8), C3, rate3, 4, 12))
     wa = I.sym('wa', lo=1, hi=U128 // 64)
     T = I.sym('T', lo=1, hi=U128 // 32)
     I.assume(T >= wa)
@@ -62,7 +67,7 @@ def world(I):
 
 
 OPS = ['create_position', 'expand_position', 'close_full', 'close_partial', 'withdraw_unlocked', 'emergency_open', 'emergency_closed', 'claim', 'claim_until',
-       'create_farm', 'expand_farm', 'close_farm', 'close_lp_reward_farm']
+       'create_farm', 'expand_farm', 'close_farm', 'close_lp_reward_farm', 'expand_by_pool_manager', 'create_by_pool_manager']
 
 
 def run(I, ch, b, op, v):
@@ -73,6 +78,14 @@ def run(I, ch, b, op, v):
     if op == 'expand_position':
         b.set('alice', LP1, amt)
         return ch.execute('alice', FM, manage_position('Expand', identifier='u-a'), [coin_v(LP1, amt)])
+    if op == 'expand_by_pool_manager':
+        # the pool manager tops up alice's position on her behalf (locked deposit)
+        b.set(PMA, LP1, amt)
+        return ch.execute(PMA, FM, manage_position('Expand', identifier='u-a'), [coin_v(LP1, amt)])
+    if op == 'create_by_pool_manager':
+        b.set(PMA, LP1, amt)
+        I.assume(I.addr_valid('carol'))
+        return ch.execute(PMA, FM, manage_position('Create', identifier=NONE(), unlocking_duration=30 * DAY, receiver=Some('carol')), [coin_v(LP1, amt)])
     if op == 'close_full':
         put_last_claimed(I, 'alice', E)           # no pending rewards
         return ch.execute('alice', FM, manage_position('Close', identifier='u-a', lp_asset=NONE()), [])
@@ -116,7 +129,7 @@ def _ob(op):
             I.observe('bal:farm_manager:' + d, b.get(FM, d))
         for pid in ('u-a', 'u-b', 'p-8'):
             observe_position(I, pid)
-        for fid in ('f-1', 'f-2', 'f-4'):
+        for fid in ('f-1', 'f-2', 'f-3', 'f-4'):
             observe_farm(I, fid)
         if st != 'ok':
             I.outcome('rejected')
@@ -136,9 +149,10 @@ def _build(op):
         rate = m['rate']
         exp_b = 5 * DAY if ch.get('bob_position', 0) == 0 else 200 * DAY
         pos = [('u-a', LP1, m['pa'], 30 * DAY, 'alice', None), ('u-b', LP1, m['pb'], DAY, 'bob', exp_b)]
-        farms = [('f-1', 'fowner', LP1, 'uusd', rate * 8, m['C'], rate, 4, 12), ('f-2', 'fowner2', LP2, LP1, m['F2'], m['C2'], 1, 4, 12)]
-        liab = {LP1: m['pa'] + m['pb'] + m['F2'] - m['C2'], 'uusd': rate * 8 - m['C'], 'uom': 0}
-        mints = [('farm_manager', [(LP1, liab[LP1] + m['X_lp1']), ('uusd', liab['uusd'] + m['X_usd']), ('uom', m['X_om'])])]
+        farms = [('f-1', 'fowner', LP1, 'uusd', rate * 8, m['C'], rate, 4, 12), ('f-2', 'fowner2', LP2, LP1, m['F2'], m['C2'], 1, 4, 12),
+                 ('f-3', 'fowner', LP1, 'uom', m['rate3'] * 8, m['C3'], m['rate3'], 4, 12)]
+        liab = {LP1: m['pa'] + m['pb'] + m['F2'] - m['C2'], 'uusd': rate * 8 - m['C'], 'uom': m['rate3'] * 8 - m['C3']}
+        mints = [('farm_manager', [(LP1, liab[LP1] + m['X_lp1']), ('uusd', liab['uusd'] + m['X_usd']), ('uom', liab['uom'] + m['X_om'])])]
         d = {'now_s': E * DAY + 5, 'positions': pos, 'farms': farms, 'weights': [('alice', LP1, 3, m['wa']), ('farm_manager', LP1, 3, m['T'])],
              'counters': {'position': 7, 'farm': 3}, 'mints': mints, 'last_claimed': [],
              'config': {'create_farm_fee': {'denom': 'uom', 'amount': '1000'}, 'max_concurrent_farms': 3}}
@@ -152,6 +166,12 @@ def _build(op):
         elif op == 'expand_position':
             d['mints'].append(('alice', [(LP1, a)]))
             d['txs'] = [('alice', P('expand', identifier='u-a'), [(LP1, a)])]
+        elif op == 'expand_by_pool_manager':
+            d['mints'].append(('pool_manager', [(LP1, a)]))
+            d['txs'] = [('pool_manager', P('expand', identifier='u-a'), [(LP1, a)])]
+        elif op == 'create_by_pool_manager':
+            d['mints'].append(('pool_manager', [(LP1, a)]))
+            d['txs'] = [('pool_manager', P('create', identifier=None, unlocking_duration=30 * DAY, receiver='@carol'), [(LP1, a)])]
         elif op in ('close_full', 'close_partial'):
             d['last_claimed'] = [('alice', E)]
             d['txs'] = [('alice', P('close', identifier='u-a', lp_asset=None if op == 'close_full' else coin_j(LP1, a)), [])]
@@ -189,5 +209,5 @@ for _op in OPS:
                kind='S', statement='from any state where the farm manager holds, per denom, all recorded position amounts + (funded - claimed) of all farms + excess X >= 0 '
                                    '(incl. a farm whose reward denom is an LP denom that is also locked in positions): after %s the balance still covers the liabilities and the '
                                    'excess never decreases (unchanged except for emergency-penalty dust)' % _op,
-               bounds='two positions (open / closed), two farms, window of 10 epochs, symbolic amounts, budgets, weights and excess',
+               bounds='two positions (open / closed), three farms (two on the same LP token with the same owner), window of 10 epochs, symbolic amounts, budgets, weights and excess',
                covers=['ok'], replay=_replay(_op))(_ob(_op))
